@@ -96,10 +96,45 @@ func ZZ_C18_syntax() {
 				cont++
 			}
 		}
-		dl, dc, _ := zzLineCol(b, off-cont)
-		if (l.Line != line || (l.Column != colBytes && l.Column != colChars)) && l.Line == dl && l.Column == dc {
-			zzKnown("KF-C18-rune-offset")
-			zzFail("syntax error located at the character index read as a byte offset")
+		// (lexing resumes at byte offsets, so only the multi-byte characters since
+		// the last resume point are lost: the position is short by 1..cont bytes)
+		if l.Line != line || (l.Column != colBytes && l.Column != colChars) {
+			// When a name follows the multi-byte character, KF-C03-offset-unit takes
+			// over: lexing resumes inside that name or the character (token offsets
+			// are character indexes used as byte offsets), and the error may be raised
+			// anywhere before the offending lexeme.
+			nameAfter, seenMB, inC := false, false, false
+			for i := 1; i < off; i++ {
+				if b[i] >= 0x80 {
+					seenMB = true
+				}
+				if inC {
+					if b[i] == '\n' || b[i] == '\r' {
+						inC = false
+					}
+					continue
+				}
+				if b[i] == '#' {
+					inC = true
+				}
+				if b[i] == 'a' && seenMB {
+					nameAfter = true
+				}
+			}
+			if nameAfter {
+				ll, lc, _ := zzLineCol(b, off)
+				if l.Line < ll || (l.Line == ll && l.Column < lc) {
+					zzKnown("KF-C18-rune-offset")
+					zzFail("syntax error raised before the offending lexeme after lexing resumed inside a token")
+				}
+			}
+			for j := 1; j <= cont; j++ {
+				dl, dc, _ := zzLineCol(b, off-j)
+				if l.Line == dl && l.Column == dc {
+					zzKnown("KF-C18-rune-offset")
+					zzFail("syntax error located at the character index read as a byte offset")
+				}
+			}
 		}
 	}
 	zzAssert(l.Line == line, "syntax error line")
